@@ -7,6 +7,8 @@ Init == i \in 1..Len(Traces) /\ ph = 0
 Next == ph = 0 /\ ph' = 1 /\ UNCHANGED i
 J == ph = 1
 T == Traces[i]
+IsStress == "op" \in DOMAIN T /\ T.op = "stress"
+JH == J /\ ~IsStress                 \* a replayed history (not a stress burst)
 Ev == T.ev
 N == Len(Ev)
 NC == Len(T.tok)
@@ -17,29 +19,32 @@ TokBytes(id) == CASE id = 1 -> <<1>> [] id = 2 -> <<0, 1>> [] id = 3 -> <<0, 0, 
 Tok(c) == TokBytes(T.tok[c])
 SetOf(q) == {q[k] : k \in 1..Len(q)}
 
+\* free-running callers that release their responses at once (op "stress"): every successful call got its own token and the
+\* content produced for its own request
+C03_StressOwn == (J /\ IsStress) => T.wrong = 0
 \* "every request call that returns successfully returns a response carrying its own token and the content the
 \*  peer produced for that request"
-C03_OwnToken == J => \A k \in 1..N : \A c \in 1..NC :
+C03_OwnToken == JH => \A k \in 1..N : \A c \in 1..NC :
                    Ev[k].res[c].pc = "ok" => (Ev[k].res[c].tok = Tok(c) /\ Ev[k].res[c].forc = c /\ Ev[k].res[c].code = 69
                                                /\ Ev[k].res[c].serial \in SetOf(T.answers[c]))
 \* "a response is never delivered to a different caller or to two callers"
-C03_AtMostOneCaller == J => \A a, b \in 1..NC :
+C03_AtMostOneCaller == JH => \A a, b \in 1..NC :
                    (a # b /\ FinalRes[a].pc = "ok" /\ FinalRes[b].pc = "ok") => <<FinalRes[a].forc, FinalRes[a].serial>> # <<FinalRes[b].forc, FinalRes[b].serial>>
 \* "a second request issued with a token that is still outstanding is rejected rather than displacing the first"
 OutBefore(k, c) == k > 1 /\ Ev[k - 1].res[c].pc = "out"
-C03_DupTokenRejected == J => \A k \in 1..N :
+C03_DupTokenRejected == JH => \A k \in 1..N :
                    (Ev[k].act.a = "start" /\ Ev[k].applied /\ \E d \in 1..NC : d # Ev[k].act.c /\ T.tok[d] = T.tok[Ev[k].act.c] /\ OutBefore(k, d))
                       => (Ev[k].res[Ev[k].act.c].pc = "rejected"
                           /\ \A d \in 1..NC : (d # Ev[k].act.c /\ OutBefore(k, d)) => Ev[k].res[d].pc = "out")
 \* a request is rejected only for that reason
-C03_RejectedOnlyIfDup == J => \A k \in 1..N : \A c \in 1..NC :
+C03_RejectedOnlyIfDup == JH => \A k \in 1..N : \A c \in 1..NC :
                    (Ev[k].res[c].pc = "rejected" /\ (k = 1 \/ Ev[k - 1].res[c].pc # "rejected"))
                       => \E d \in 1..NC : d # c /\ T.tok[d] = T.tok[c] /\ OutBefore(k, d)
 \* an answer for an outstanding request completes exactly that request
-C03_AnswerCompletes == J => \A k \in 1..N :
+C03_AnswerCompletes == JH => \A k \in 1..N :
                    (Ev[k].act.a = "answer" /\ Ev[k].applied /\ Ev[k].act.y # "dup" /\ OutBefore(k, Ev[k].act.c))
                       => (Ev[k].res[Ev[k].act.c].pc = "ok" /\ \A d \in 1..NC : d # Ev[k].act.c => Ev[k].res[d].pc = Ev[k - 1].res[d].pc)
 \* after the end nothing is left waiting (C09) and no continuation is left behind (C13)
-C03_AllReturned == J => T.hung = <<>>
-C03_TablesEmpty == J => (T.endTokens = 0 /\ T.endMids = 0)
+C03_AllReturned == JH => T.hung = <<>>
+C03_TablesEmpty == JH => (T.endTokens = 0 /\ T.endMids = 0)
 =============================================================================
